@@ -5,6 +5,7 @@
 //  P2  explicit multi-step schedules (BFS over a gap alphabet) with the 64-bit counter
 //      straddling 2^16 and 2^32.
 //  P3  histories mixing settings and polls against a reference model (explicit-state BFS).
+//  P4  the first setting of a never-set clock: every 16-bit phase x every value next to the sentinel / zero.
 #include "acetime_all.h"
 #include "verif.h"
 #include "mc.h"
@@ -172,10 +173,41 @@ static void p3(const Args& a, Counters& c) {
   c.add("p3_states", states); c.add("p3_transitions", trans); c.add("p3_executions", exec);
 }
 
+// ---- P4: the very first setting of a never-set clock, exhaustively over (T, m0) where T is a value the
+// unset clock's own fields could alias: sentinel+1..sentinel+70 (what the catch-up arithmetic would yield from the
+// initial mEpochSeconds and any 16-bit millisecond phase) and 0..70; m0 = every millisecond of one 16-bit period, from
+// three 64-bit bases. After the set, polls at +1, +501, +1000, +1999 ms must read T + floor((m - m0)/1000).
+static void p4(const Args& a, Counters& c) {
+  if (a.shard != 3 % a.nshards) return;
+  static const unsigned long bases[] = {0UL, 0xFFFF0000UL, 0x100000000UL + 65536UL * 7};
+  static const uint32_t gaps[] = {1, 500, 499, 999};
+  uint64_t n = 0, polls = 0; int reported = 0;
+  for (unsigned long base : bases) for (unsigned long lo = 0; lo < 65536; lo++) {
+    unsigned long m0 = base + lo;
+    for (int fam = 0; fam < 2; fam++) for (int j = (fam == 0 ? 1 : 0); j <= 70; j++) {
+      int64_t T = fam == 0 ? (int64_t)INT32_MIN + j : (int64_t)j;
+      TClock clk; g_ms = m0;
+      if (clk.isInit() || clk.getNow() != Clock::kInvalidSeconds) { if (reported++ < 3) violation("c13:unset-clock-not-invalid", fmt("{\"millis\":%lu}", m0)); }
+      clk.setNow((acetime_t)T); n++;
+      unsigned long m = m0;
+      for (uint32_t g : gaps) {
+        m += g; g_ms = m; int64_t got = clk.getNow(); polls++;
+        int64_t want = T + (int64_t)((m - m0) / 1000);
+        if (got != want || !clk.isInit() || clk.getLastSyncTime() != (acetime_t)T) {
+          if (reported++ < 3) violation("c13:first-set-reading-wrong", fmt("{\"m0\":%lu,\"T_minus_sentinel\":%lld,\"poll_at_m0_plus\":%lu,\"got_minus_T\":%lld,\"want_minus_T\":%lld}", m0, (long long)(T - (int64_t)INT32_MIN), m - m0, (long long)(got - T), (long long)(want - T)));
+          break;
+        }
+      }
+    }
+  }
+  c.add("p4_first_settings", n); c.add("p4_polls", polls);
+  sample(fmt("{\"p4\":\"3 bases x 65536 phases x 141 values next to the sentinel and to 0, 4 polls each\"}"));
+}
+
 int main(int argc, char** argv) {
   Args a = parse_args(argc, argv);
   Counters c;
-  p1(a, c); p2(a, c); p3(a, c);
+  p1(a, c); p2(a, c); p3(a, c); p4(a, c);
   done(c);
   return 0;
 }
